@@ -42,6 +42,10 @@ class DType(object):
         self.str = {'f': '<f8', 'c': '<c16', 'i': '<i8', 'b': '|b1', 'O': '|O'}.get(kind, '?')
         self.char = {'f': 'd', 'c': 'D', 'i': 'l', 'b': '?', 'O': 'O'}.get(kind, '?')
         self.itemsize = {'f': 8, 'c': 16, 'i': 8, 'b': 1, 'O': 8}.get(kind, 8)
+        self.hasobject = kind == 'O'
+        self.isnative = True
+        self.byteorder = '|' if kind in ('b', 'O') else '='
+        self.names = None
 
     def __eq__(self, o):
         from .absint import NumType
@@ -373,18 +377,46 @@ class Models(object):
         # symbolic number counts as a float of either family)
         from .absint import TypeLike
         num = lambda x: (isinstance(x, (int, Fr, Poly, Rat)) or hasattr(x, 'is_elem_')) and not isinstance(x, Arr)       # noqa: E731
-        np.number = TypeLike('number', lambda x=0: x, lambda x: num(x) and not isinstance(x, bool))
-        np.integer = TypeLike('integer', lambda x=0: x, lambda x: isinstance(x, int) and not isinstance(x, bool))
-        np.floating = TypeLike('floating', lambda x=0: x, lambda x: (isinstance(x, (Fr, Rat)) or (isinstance(x, Poly) and x.is_real())
-                                                                      or getattr(x, 'kind', None) == 'f') and not isinstance(x, Arr))
-        np.complexfloating = TypeLike('complexfloating', lambda x=0: x, lambda x: (isinstance(x, Poly) and not x.is_real())
-                                      or getattr(x, 'kind', None) in ('c', 'z'))
+
+        def numpy_scalar(pred):
+            """isinstance(x, np.<abstract scalar type>): python scalars are not instances - decided per type world"""
+            def f(x):
+                if not pred(x):
+                    return False
+                from . import absint
+                absint.TYPE_WORLD_USED = True
+                return absint.TYPE_WORLD == 'numpy'
+            return f
+        np.number = TypeLike('number', lambda x=0: x, numpy_scalar(lambda x: num(x) and not isinstance(x, bool)))
+        np.integer = TypeLike('integer', lambda x=0: x, numpy_scalar(lambda x: isinstance(x, int) and not isinstance(x, bool)))
+        np.floating = TypeLike('floating', lambda x=0: x, numpy_scalar(lambda x: (isinstance(x, (Fr, Rat)) or (isinstance(x, Poly) and x.is_real())
+                                                                      or getattr(x, 'kind', None) == 'f') and not isinstance(x, Arr)))
+        np.complexfloating = TypeLike('complexfloating', lambda x=0: x, numpy_scalar(lambda x: (isinstance(x, Poly) and not x.is_real())
+                                      or getattr(x, 'kind', None) in ('c', 'z')))
         np.bool_ = TypeLike('bool_', lambda x=False: bool(x), lambda x: isinstance(x, bool))
-        np.generic = TypeLike('generic', lambda x=0: x, lambda x: num(x))
+        np.generic = TypeLike('generic', lambda x=0: x, numpy_scalar(lambda x: num(x)))
         np.finfo = lambda t=None: Namespace('finfo', eps=Poly.sym('EPS'), tiny=Poly.sym('TINY'),
                                             smallest_normal=Poly.sym('TINY'), max=Poly.sym('HUGE'),
                                             min=-Poly.sym('HUGE'))
         np.errstate = lambda **k: FpContext(self, k)
+
+        def geterr():
+            # numpy defaults (warn, underflow ignored) modified by the enclosing errstate blocks of the run
+            cur = {'divide': 'warn', 'over': 'warn', 'under': 'ignore', 'invalid': 'warn'}
+            for k in self.fp_silenced[-1]:
+                cur[k] = 'ignore'
+            return cur
+        np.geterr = geterr
+        # sized scalar types: the analysis works with double precision / 64 bit values only, so nothing is an instance of
+        # the narrower types; the 64 bit ones are the types of the abstract numbers
+        from .absint import TypeLike as _TL
+        for nm in ('int8', 'int16', 'int32', 'uint8', 'uint16', 'uint32', 'uint64', 'float16', 'float32', 'complex64', 'longdouble',
+                   'clongdouble', 'intc', 'uintc'):
+            setattr(np, nm, _TL(nm, lambda x=0: x, lambda x: False))
+        np.int64 = np.intp = _TL('int64', lambda x=0: x, lambda x: isinstance(x, int) and not isinstance(x, bool))
+        # the scalar types the analysis knows (one per kind); the narrower ones never occur in it
+        np.sctypeDict = {'float64': FLOAT, 'double': FLOAT, 'complex128': COMPLEX, 'cdouble': COMPLEX, 'int64': np.int64,
+                         'bool': BOOL, 'float32': np.float32, 'int32': np.int32, 'complex64': np.complex64}
         np.ndarray = _NdarrayType()
         for name in ('abs', 'absolute', 'sqrt', 'exp', 'log', 'log2', 'log10', 'log1p', 'expm1', 'exp2',
                      'sin', 'cos', 'tan', 'sinh', 'cosh', 'tanh', 'arctan', 'arcsin', 'arccos', 'arcsinh',
